@@ -153,6 +153,9 @@ def finish(res, tier, seed, level, t0, checker_cmd, explanation=""):
                     undecided.append(f"refuter for {o.id} crashed: {e!r}")
             if refuted:
                 continue        # already reported through the bounded case
+            if not cases:
+                # failing inputs found by this run's bounded evaluations of the same property replay the violation
+                cases = [c for c in res.cases if not c.ok and not match_known(prop, c.sig, known)][:1]
             if cases:
                 c = cases[0]
                 if match_known(prop, c.sig, known):
